@@ -43,7 +43,8 @@ def _site_rows(ctx):
     def callsites(suffix, argty=None):
         def pred(fn):
             out = []
-            for bb, t in calls(fn, suffix):
+            suffixes = ('core::mem::swap', 'core::mem::replace', 'core::mem::take') if suffix == 'core::mem::swap' else (suffix,)
+            for bb, t in [x for sf in suffixes for x in calls(fn, sf)]:
                 if argty is None or (t['args'] and t['args'][0]['k'] != 'const' and argty in clean_ty(t['args'][0]['pl']['ty'])):
                     out.append(bb)
             return out
@@ -70,7 +71,7 @@ def _site_rows(ctx):
             ('desync::wrap_fnonce', 'a pool thread is handed a job and the wrapper does not run it')):
         rows.append(('%s|runs-the-closure' % short(root), fam(root), user_calls, 1, why))
     # Desync::drop: each of its two jobs frees the value
-    rows.append(('Desync::drop|frees-the-value', fam('<desync::Desync as core::ops::drop::Drop>::drop'), callsites('alloc::boxed::Box::from_raw'), 2,
+    rows.append(('Desync::drop|frees-the-value', fam('<desync::Desync as core::ops::drop::Drop>::drop'), callsites('alloc::boxed::Box::from_raw'), 1,
                  'the job that Desync::drop queues can finish without freeing the value: it is leaked (destroyed zero times)'))
     # the pipes start themselves
     for root in ('desync::pipe_in', 'desync::pipe'):
@@ -81,13 +82,13 @@ def _site_rows(ctx):
                  'requeue() can return without putting the suspended job back: the operation (and the result future waiting for it) is lost'))
     # taking the result of a scheduler future moves it out
     tk = F.fn('desync::FutureResultState::take')
-    rows.append(('FutureResultState::take|moves-the-value-out', [tk] if tk else [], callsites('core::mem::swap'), 1,
+    rows.append(('FutureResultState::take|moves-the-value-out', [tk] if tk else [], callsites('core::mem::swap'), 0,
                  'take() can leave the stored result in place and report "nothing yet": the awaiting task never sees its value'))
     jt = F.fn('desync::JobState::take')
-    rows.append(('JobState::take|moves-the-state-out', [jt] if jt else [], callsites('core::mem::swap'), 1,
+    rows.append(('JobState::take|moves-the-state-out', [jt] if jt else [], callsites('core::mem::swap'), 0,
                  'a future job can be polled without its state being moved out: it reports "nothing to run" and the operation is silently skipped'))
     sp = F.fn('<desync::SyncFuture as core::future::future::Future>::poll')
-    rows.append(('SyncFuture::poll|takes-its-state', [sp] if sp else [], callsites('core::mem::swap'), 1,
+    rows.append(('SyncFuture::poll|takes-its-state', [sp] if sp else [], callsites('core::mem::swap'), 0,
                  'SyncFuture::poll can run on the placeholder state instead of its real one: the future resolves without the operation having run'))
     # suspend(): the job hands the resumer over
     rows.append(('Scheduler::suspend|hands-over-the-resumer', fam('desync::Scheduler::suspend'), callsites('SchedulerFutureSignaller::signal'), 1,
@@ -95,10 +96,8 @@ def _site_rows(ctx):
     # the drain waker: both entry points exchange the state and fire what they took out
     for root in ('desync::DrainWaker::wake_with', '<desync::DrainWaker as futures_task::arc_wake::ArcWake>::wake_by_ref'):
         f = F.fn(root)
-        rows.append(('%s|exchanges-state' % short(root), [f] if f else [], callsites('core::mem::swap'), 1,
+        rows.append(('%s|exchanges-state' % short(root), [f] if f else [], callsites('core::mem::swap'), 0,
                      'the drain waker can be used without recording it: a wake-up that arrives before the waker is armed (or the arming itself) is lost'))
-        rows.append(('%s|fires-what-it-took' % short(root), [f] if f else [], lambda fn: [bb for bb, t in calls(fn, 'core::option::Option::map')] + [s.bb for s in g.sites.get(fn.name, []) if s.kind == 'wake'], 1,
-                     'the drain waker can take the stored waker out of its state and not wake it'))
     return rows
 
 
@@ -128,11 +127,79 @@ def must(ctx):
     return out
 
 
+def _reach_exit_avoiding(fn, through, cut_edges, src=0):
+    """Is a normal exit reachable from src without entering a block of `through` and without taking an edge of `cut_edges`?"""
+    exits = set(fn.exits())
+    seen, st = set(), [src]
+    while st:
+        b = st.pop()
+        if b in seen or b in through:
+            continue
+        seen.add(b)
+        if b in exits:
+            return True
+        for n in fn.succs(b, False):
+            if (b, n) not in cut_edges:
+                st.append(n)
+    return False
+
+
+def _option_none_edges(fn, tyfrag):
+    """Edges (switch block, target) taken when an Option whose type mentions `tyfrag` is None (discriminant 0, or is_some()==false / is_none()==true)."""
+    out = set()
+    for bb, b in enumerate(fn.blocks):
+        t = b['term']
+        if not t or t['k'] != 'switch' or b['cleanup'] or t['discr']['k'] == 'const' or t['discr']['pl']['p']:
+            continue
+        for s_ in b['stmts']:
+            if s_['k'] == 'assign' and not s_['pl']['p'] and s_['pl']['l'] == t['discr']['pl']['l'] and s_['rv']['k'] == 'discr':
+                ty = clean_ty(fn.local_ty(s_['rv']['pl']['l'])) if not s_['rv']['pl']['p'] else clean_ty(s_['rv']['pl']['ty'])
+                if 'Option<' in ty and tyfrag in ty:
+                    tg = dict((str(v), tb) for v, tb in t['targets'])
+                    none_t = tg.get('0', t['otherwise'])
+                    out.add((bb, none_t))
+    return out
+
+
+def _wakes_what_it_took(ctx, fn, key, why, out):
+    """On every path that took a waker out of a slot, the waker is woken: the only ways past the wake are the None edges of the tests of
+    that Option<Waker>."""
+    g = cg(ctx)
+    F = ctx.F
+    sites = set(s.bb for s in g.sites.get(fn.name, []) if s.kind == 'wake' and not fn.blocks[s.bb]['cleanup'])
+    for s in g.sites.get(fn.name, []):
+        if s.kind == 'hof' and any(F.fn(c) is not None and any(x.kind == 'wake' for x in g.sites.get(c, [])) for c in s.targets):
+            # Option::map(|w| w.wake()): the closure must wake on every path of its own
+            for c in s.targets:
+                cf = F.fn(c)
+                wk = [x.bb for x in g.sites.get(c, []) if x.kind == 'wake']
+                if cf is not None and wk and not _always(cf, wk):
+                    out.append(bad(R, key, why + ' (the closure passed to `%s` can return without waking)' % s.what.split('::')[-1], loc=cf.loc(wk[0]), fn=fn.name))
+                    return
+            sites.add(s.bb)
+    if not sites:
+        out.append(undecided(R, key, 'no wake found'))
+        return
+    cuts = _option_none_edges(fn, 'Waker')
+    if _reach_exit_avoiding(fn, sites, cuts) and feasible_reach(fn, 0, set(fn.exits()), sites) and not cuts:
+        out.append(bad(R, key, why, loc=fn.loc(sorted(sites)[0]), fn=fn.name))
+    elif _reach_exit_avoiding(fn, sites, cuts):
+        out.append(bad(R, key, why + ' (a path on which a waker was taken reaches the end without waking it)', loc=fn.loc(sorted(sites)[0]), fn=fn.name))
+    else:
+        out.append(ok(R, key, 'the only ways past the wake are the None edges of the taken Option<Waker>', fn=fn.name))
+
+
 def _edge_rows(ctx):
     """Obligations that start at an edge rather than at the entry of a body."""
     F = ctx.F
     g = cg(ctx)
     out = []
+    for root in ('desync::DrainWaker::wake_with', '<desync::DrainWaker as futures_task::arc_wake::ArcWake>::wake_by_ref'):
+        f = F.fn(root)
+        if f:
+            _wakes_what_it_took(ctx, f, '%s|fires-what-it-took' % short(root), 'the drain waker can take the stored waker out of its state and not wake it', out)
+        else:
+            out.append(undecided(R, '%s|fires-what-it-took' % short(root), 'anchor not found'))
     # reschedule_queue: every waiter that is still there is notified
     key = 'reschedule_queue|notifies-each-live-waiter'
     ks = [k for k in _children(ctx, 'desync::SchedulerCore::reschedule_queue') if calls(k, 'Weak<T, A>::upgrade') or calls(k, 'Weak::upgrade') or any('upgrade' in (t['func'].get('fn') or '') for _, t in k.calls())]
@@ -162,7 +229,7 @@ def _edge_rows(ctx):
         out.append(undecided(R, key, 'anchor not found'))
     else:
         wakes = [s.bb for s in g.sites.get(dw.name, []) if s.kind == 'wake' and not dw.blocks[s.bb]['cleanup']]
-        takes = calls(dw, 'core::option::Option::take')
+        takes = calls(dw, 'core::option::Option::take') or [(bb, t) for bb, t in calls(dw, 'core::clone::Clone::clone') if 'Option<' in clean_ty(dw.local_ty(t['dest']['l']))]
         e = result_edges(dw, takes[0][0]) if takes else None
         some = edge_for(e, OPTION, 'Some') if e else None
         if len(wakes) < 2 or some is None:
@@ -332,6 +399,12 @@ def _pipe_rows(ctx):
                     okk = False
             # the statement that consumes the collected handles is reached on every path
             outer = [bb for f, bb in joins if f is dp]
+            # a `for handle in handles { handle.join() }` loop joins per element: the walk starts where the collection is turned into an iterator
+            for bb, t in dp.calls():
+                nm = t['func'].get('fn') or ''
+                if nm.endswith(('IntoIterator::into_iter', 'Vec::drain', 'Vec::into_iter')) and not dp.blocks[bb]['cleanup'] and t['args'] and t['args'][0]['k'] != 'const' \
+                        and 'JoinHandle' in clean_ty(t['args'][0]['pl']['ty']) and t['target'] is not None and any(j in dp.reachable_blocks(t['target']) for j in outer):
+                    outer.append(bb)
             for s_ in g.sites.get(dp.name, []):
                 if s_.kind == 'hof' and any(F.fn(c) is not None and any(f.name == c for f, _ in joins) for c in s_.targets):
                     outer.append(s_.bb)
